@@ -24,7 +24,12 @@ for d in sorted(glob.glob('/verif/seeded/C??-seed?')):
     else:
         res = '**missed**'
     rows.append((name, meta['breaks'].replace('|', '/'), res, 'yes' if demo_ok else '?'))
-print('| seeded change | what it breaks | caught by | demo confirmed |')
-print('|---|---|---|---|')
-for r in rows:
-    print('| %s | %s | %s | %s |' % r)
+import sys
+out = ['| seeded change | what it breaks | caught by | demo confirmed |', '|---|---|---|---|'] + ['| %s | %s | %s | %s |' % r for r in rows]
+if '--design' in sys.argv:
+    d = open('/verif/DESIGN.md').read()
+    a, b = '<!-- seedtable:begin -->', '<!-- seedtable:end -->'
+    i, j = d.index(a) + len(a), d.index(b)
+    open('/verif/DESIGN.md', 'w').write(d[:i] + '\n' + '\n'.join(out) + '\n' + d[j:])
+else:
+    print('\n'.join(out))
